@@ -124,6 +124,21 @@ impl Storage for InMemoryStorage {
         Ok(())
     }
 
+    async fn drop_tables(&self, table_ids: &[TableRefId]) -> StorageResult<()> {
+        {
+            let tables = self.tables.lock().unwrap();
+            for (i, table_id) in table_ids.iter().enumerate() {
+                if !tables.contains_key(table_id) || table_ids[..i].contains(table_id) {
+                    return Err(TracedStorageError::not_found("table", table_id.table_id));
+                }
+            }
+        }
+        for table_id in table_ids {
+            self.drop_table(*table_id).await?;
+        }
+        Ok(())
+    }
+
     fn as_disk(&self) -> Option<&super::SecondaryStorage> {
         None
     }
